@@ -899,6 +899,24 @@ func main() {
 	if focus == "C06" {
 		ns = r.N(40, 600)
 	}
+	if focus == "C10" {
+		n = r.N(200, 6000)
+		nn := r.N(60, 1500)
+		vh.Parallel(n+nn, 16, func(i int) {
+			if i < n {
+				runC10(r, i)
+			} else {
+				nested(r, i-n)
+			}
+		})
+		r.Require("histories", int64(n))
+		r.Require("layout_validations", int64(n*10))
+		r.Require("store_equivalence_steps", int64(n*5))
+		r.Require("restarts", int64(n))
+		r.Require("nested_trials", int64(nn/2))
+		r.Finish("the C05/C06 history generator (all policies, collections anywhere, aliased graphs, sha256/384/512) drives a directory store and in lockstep a memory store twin; OCI layout validation + index.json tags == tags/list == model after every operation; snapshots of both stores compared after every operation; collection + close + reopen equivalence at random points; the directory reopened as memory-over-directory at the end; plus nested repositories a, a/b, a/b/c created and emptied in every order with collections between upload and manifest; a case is one history, distinct = distinct complete traces", "histories", "histories_distinct")
+		return
+	}
 	vh.Parallel(n+ns, 16, func(i int) {
 		if i < n {
 			runHistory(r, focus, i)
